@@ -108,6 +108,10 @@ typedef struct VmState {
     uint64_t verif_audit_tick;
     uint64_t verif_audits, verif_audit_objs, verif_audit_viol, verif_audit_maxdeg;
     uint64_t verif_audit_peak_live;
+    uint64_t verif_audit_unreach;  /* live objects no root reached at the previous audit */
+    void   **verif_audit_orphans;  /* objects already reported as orphans */
+    uint32_t verif_audit_orphan_count, verif_audit_orphan_cap;
+    uint64_t verif_audit_orphan_records;
     void    *verif_audit_log;     /* FILE* ($NLVERIF_AUDIT_LOG) or NULL = stderr */
 #endif
 } VmState;
